@@ -27,7 +27,7 @@ RULE = ('case = (data class, first computation | forced recomputation over an ex
         'reference; zero runs if has_data was true, exactly one run of the task otherwise); second request; for failed directory tasks <key>_error '
         'holds what was written and (first computation) no <key> exists; a failed ContinuesData run keeps <key>_tmp for continuation. '
         'non-trivial = every enumerated fault point; distinct = (data class, mode, fault kind, index)')
-REQUIRED = ['recorded_executions', 'crash_points', 'torn_writes', 'raise_points', 'post_fault_checks', 'recovered_by_recompute', 'complete_result_found',
+REQUIRED = ['crash_after_rename_points', 'recorded_executions', 'crash_points', 'torn_writes', 'raise_points', 'post_fault_checks', 'recovered_by_recompute', 'complete_result_found',
             'forced_mode_executions', 'error_dirs_checked', 'continues_tmp_checked']
 ASSUMPTIONS = ['crash model: process death between audited file operations and torn sequential writes; no power-loss / page-cache reordering',
                'H5Data (native I/O invisible to the audit hook) and FigureData are not exercised',
@@ -193,6 +193,21 @@ def enumerate_faults(kind, mode, variant, rng, res: CaseResult):
             res.nt(jhash([kind, mode, variant, 'crash', i]))
             what = f'{kind} ({mode}): process killed immediately before file operation #{i} `{ev} {p}`'
             check_after(lab, ref, root, slug, res, dict(base_witness, fault=['crash', i, ev, p]), what, d)
+        # ---- (a') crash immediately AFTER every rename/replace returned (publish points; buffers not yet flushed/closed) -----------------
+        rp = lab.run(faulted_steps([{'op': 'rename_profile'}]) + [{'op': 'rename_profile_stop'}], data_dir=fresh_dir('renp'))
+        n_ren = 0
+        if not session_problem(rp) and rp['steps'][-1]['ok']:
+            n_ren = rp['steps'][-1].get('rename_returns', 0)
+        for k in range(n_ren):
+            d = fresh_dir('crashren')
+            r = lab.run(faulted_steps([{'op': 'rename_profile', 'crash_at': k}]), data_dir=d)
+            if r.get('exit') != 137:
+                res.inconclusive.append(f'{kind}/{mode}: crash point after rename #{k} was not reached (exit {r.get("exit")})')
+                continue
+            res.count('crash_after_rename_points')
+            res.nt(jhash([kind, mode, variant, 'crash_after_rename', k]))
+            what = f'{kind} ({mode}): process killed immediately after rename/replace #{k} returned'
+            check_after(lab, ref, root, slug, res, dict(base_witness, fault=['crash_after_rename', k]), what, d)
         # ---- (b) torn prefix of every file written -------------------------------------------------------------------
         open_idx = [(i, p) for i, (ev, p) in enumerate(events) if ev == 'open_w']
         for i, p in open_idx:
